@@ -12,19 +12,20 @@ EXTENDS PPRefLoop, TLC, Json
 
 
 VARIABLE l
-Loops == {[fs |-> fs, fr |-> fr, te |-> te, pump |-> pu, cons |-> cs] :
-            fs \in {1, 2}, fr \in {1, 3}, te \in {1, 2}, pu \in {"pressure", "mass"},
+Loops == {[fs |-> fs, fr |-> fr, te |-> te, pump |-> pu, cons |-> cs, p2 |-> p2] :
+            fs \in {1, 2}, fr \in {1, 3}, te \in {1, 2}, pu \in {"pressure", "mass"}, p2 \in {0, 1},
             cs \in UNION {[1..n -> [mode : Modes, m : {1, 2}, dT : {10, 20}]] : n \in 1..2}}
 (* a mass-flow pump needs a loop whose flow is not prescribed by the consumers: heat exchangers only *)
 Feasible(x) == /\ (x.pump = "mass" => \A i \in DOMAIN x.cons : x.cons[i].mode = "HX")
                /\ (x.pump = "pressure" => \A i \in DOMAIN x.cons : x.cons[i].mode # "HX")
+               /\ (x.p2 = 1 => (x.pump = "pressure" /\ MTot(x) >= 2))
 Init == l \in {x \in Loops : Feasible(x)}
 Next == UNCHANGED l
 Spec == Init /\ [][Next]_l
 
 (* model-level law: pump heat = consumers + pipe losses (energy closure of the reference) *)
-InvEnergy == REq(PumpHeat(l), RAdd(SumQ(l, Len(l.cons)), RAdd(LossSupply(l), LossReturn(l))))
-InvTemps == RLe(TRet(l), R(TFLOW)) /\ RLe(R(AmbK(l.te) - 1), TRet(l))
+InvEnergy == REq(RAdd(PumpHeat(l), Pump2Heat(l)), RAdd(SumQ(l, Len(l.cons)), RAdd(LossSupply(l), LossReturn(l))))
+InvTemps == RLe(TRet(l), R(TFLOW)) /\ RLe(R(AmbK(l.te) - 21), TRet(l))
 Emit == PrintT(ToJson([vp |-> "LOOP", l |-> l]))
 
 =============================================================================
